@@ -104,8 +104,9 @@ PROPS = {
     },
     "C13": {
         "engines": [{"name": "memo", "quick": 3000, "thorough": 120000, "shards": 8,
-                     "alt_build": {"tags": "verif coraza.no_memoize", "outname": "corr.nomemo", "env": "VERIF_NOMEMO_BIN"}}],
-        "nontrivial": lambda l, v: "1" in l.split(" => ")[1].split(" keys=")[0],
+                     "alt_build": {"tags": "verif coraza.no_memoize", "outname": "corr.nomemo", "env": "VERIF_NOMEMO_BIN"}},
+                    {"name": "tfwrap", "quick": 1, "thorough": 1}],
+        "nontrivial": lambda l, v: l.startswith("tfwrap ") or "1" in l.split(" => ")[1].split(" keys=")[0],
         "rule": "memo: 2-4 configurations drawn from 9 roles (@pm phrase list, regex key, data set with two (or blank-vs-newline) contents under "
                 "one name, @pmFromFile with such contents under one file name in different root file systems, @validateSchema with two schemas under one file name, @restpath, @rx "
                 "with and without prefilter, ctl regex key, SecAuditLogRelevantStatus) over only two strings per case, so the "
@@ -113,7 +114,9 @@ PROPS = {
                 "order, probed, the others closed, the last probed again. Compared: construction error/panic and probe answers "
                 "alone vs in history; every live cache key must parse as <kind>:<input> with one value type per kind; every case is also "
                 "executed by the same harness built with -tags coraza.no_memoize (a coprocess) and the behaviour fields must be equal. "
-                "Non-trivial = some probe was blocked.",
+                "tfwrap (one run per check, its own process): a family of 121 transformation lists is registered, other WAFs register 65 355 "
+                "further lists, a second family follows 65 536 identifiers above the first, and one WAF runs all 242 rules over one "
+                "argument — every rule has to see its own list's value. Non-trivial = some probe was blocked.",
         "modelled": "modelled and proved: the key function (kind tag + ':' + input) and the Do/Release protocol of "
                     "internal/memoize/sync.go at operation granularity; what each call site builds is a parameter. The "
                     "interleaving-level protocol belongs to C06.",
